@@ -414,6 +414,46 @@ def r11_5_group(ctx, m, L):
     ctx.check(bool(fresh), "R11.5", L.where(), "the group's PriorityQueue is created in the group's own block before collecting", key_of(pf, f"pq-fresh:{norm(L.node.test)}"))
 
 
+def _slices_tile(pf, call, sub):
+    """True when the slices `bv[...]` taken in the loop around `call` cover all of bv; a message when they provably do
+    not (floor-divided chunk length); None when undecided."""
+    bv = sub.value.id
+    loop = None
+    for n in walk_own(pf.node):
+        if isinstance(n, ast.For) and any(x is call for x in ast.walk(n)) and isinstance(n.target, ast.Name):
+            if loop is None or any(x is n for x in ast.walk(loop)):
+                loop = n
+    if loop is None or not (isinstance(loop.iter, ast.Call) and norm(loop.iter.func) == "range"):
+        return None
+    i = loop.target.id
+    rargs = [norm(a) for a in loop.iter.args]
+    lo, hi, step = (norm(x) if x is not None else None for x in (sub.slice.lower, sub.slice.upper, sub.slice.step))
+    ln = f"len({bv})"
+    if len(rargs) == 3 and rargs[0] == "0" and rargs[1] == ln and lo == i and hi in (f"{i} + {rargs[2]}", f"{rargs[2]} + {i}") and step is None:
+        return True  # for i in range(0, len(b), c): b[i:i + c]
+    if len(rargs) == 1 and lo == i and hi is None and step == rargs[0]:
+        return True  # for i in range(n): b[i::n]
+    if len(rargs) != 1 or step is not None or lo is None or hi is None:
+        return None
+    n = rargs[0]
+    c = None
+    for cand in {x.id for x in ast.walk(sub.slice) if isinstance(x, ast.Name)} - {i}:
+        if lo in (f"{i} * {cand}", f"{cand} * {i}") and hi in (f"({i} + 1) * {cand}", f"{cand} * ({i} + 1)", f"{i} * {cand} + {cand}", f"{lo} + {cand}"):
+            c = cand
+    if c is None:
+        return None
+    defs = [st.value for st in walk_stmts(pf.node.body) if isinstance(st, ast.Assign) and len(st.targets) == 1 and norm(st.targets[0]) == c]
+    if len(defs) != 1:
+        return None
+    d = norm(defs[0])
+    if d in (f"({ln} + {n} - 1) // {n}", f"-(-{ln} // {n})", f"math.ceil({ln} / {n})", f"ceil({ln} / {n})", f"-({ln} // -{n})"):
+        return True  # n * ceil(len / n) >= len
+    if d in (f"{ln} // {n}", f"int({ln} / {n})"):
+        return (f"the {n} slices `{norm(sub)}` have length {c} = {d}, rounded down: the last len({bv}) % {n} records of the batch "
+                f"(e.g. 1 of 3 for 2 processes) are handed to no process and are never written")
+    return None
+
+
 def r11_5_batches(ctx, m):
     pf = m.parent
     rec_loops = [n for n in walk_own(pf.node) if isinstance(n, ast.For) and "read_file" in norm(n.iter)]
@@ -428,6 +468,16 @@ def r11_5_batches(ctx, m):
             batch_vars.add(norm(site.batch))
             ch = norm(site.queue) if site.queue is not None else None
             ctx.check(ch in m.channels, "R11.5", pf.where(c), "the worker is handed the result queue that the collection loop reads", key_of(pf, f"worker-queue:{ch}"), queue=ch)
+    # a batch handed over in slices: the slices of one loop must tile the whole list
+    for site in m.ctor_sites:
+        b = site.batch
+        if isinstance(b, ast.Subscript) and isinstance(b.value, ast.Name) and isinstance(b.slice, ast.Slice):
+            batch_vars.discard(norm(b))
+            batch_vars.add(b.value.id)
+            verdict = _slices_tile(pf, site.node, b)
+            if verdict is None:
+                raise AnalysisError("R11.5", pf.where(site.node), f"cannot decide whether the slices `{norm(b)}` cover the whole batch")
+            ctx.check(verdict is True, "R11.5", pf.where(site.node), "the slices of a batch that is spread over several processes cover every record of the batch" if verdict is True else verdict, key_of(pf, f"slices-tile:{b.value.id}"), slice=norm(b))
     if len(batch_vars) != 1:
         raise AnalysisError("R11.5", pf.where(), f"cannot identify the batch list variable ({batch_vars})")
     bv = batch_vars.pop()
